@@ -35,9 +35,13 @@ class Gen:
 
     def bound_items(self):
         """one of: absent, (), (P), (..), (P, ..), (T), (T, P, ..)"""
-        k = self.r.randrange(9)
+        k = self.r.randrange(11)
         if k <= 2:
             return None, 'absent'
+        if k == 9:
+            return [sx.B_DOTS, self.marker_pred()], 'dots+pred'
+        if k == 10:
+            return [sx.b_ty(sx.tid('T')), sx.B_DOTS, self.marker_pred()], 'type+dots+pred'
         if k == 3:
             return [], 'empty'
         if k == 4:
